@@ -3,4 +3,5 @@ import Gengo.Basic.Proto
 import Gengo.Props.C07
 import Gengo.Props.C08
 import Gengo.Props.C14
+import Gengo.Props.C15
 import Gengo.Props.C19
